@@ -195,6 +195,8 @@ def build(spec, plain=False):
             m.tasks[j].extend_input_task_list([m.tasks[i]], mode)
         elif link_api == "extend-gen":
             m.tasks[j].extend_input_task_list((x for x in [m.tasks[i]]), mode)
+        elif link_api == "input-only":
+            m.tasks[j].input_task_list.append([m.tasks[i], mode])  # as the constructor keyword input_task_list does: the predecessor is not told
         else:
             m.tasks[j].append_input_task(m.tasks[i], task_dependency_mode=mode)
     chash = spec.get("chash") or list(range(len(spec.get("components", []))))
